@@ -1678,7 +1678,10 @@ Proof.
     + injection H as <-. cbn [forallb chain map concat]. rewrite !count_nil.
       repeat split; auto. { f_equal. lia. }
       replace (zlen img - a * 4096) with 0 by lia. reflexivity.
-    + rewrite SZ in H. rewrite gap_region_eq in H by lia. cbn [bind] in H. injection H as <-.
+    + assert (MZ : (zlen img mod ifd_block =? 0) = true)
+        by (rewrite SZ; change ifd_block with 4096; rewrite Z.mod_mul by lia; reflexivity).
+      rewrite MZ in H. cbn [negb] in H.
+      rewrite SZ in H. rewrite gap_region_eq in H by lia. cbn [bind] in H. injection H as <-.
       cbn [forallb chain map concat region_fr region_buf]. rewrite gap_region_ok by lia.
       unfold base_off, end_off. cbn [fr_base fr_limit]. consts.
       replace (a * 4096 =? a * 4096) with true by lia.
